@@ -215,6 +215,9 @@ func checkSizes(c boxprop.Case) *harness.Fail {
 	if err := f.Encode(&whole); err != nil {
 		return nil
 	}
+	if got := f.Size(); got != uint64(whole.Len()) {
+		return harness.Failf("C02|File(segment mode)|bytes written differ from Size()", "written %d, File.Size() %d", whole.Len(), got)
+	}
 	if uint64(whole.Len()) != total {
 		return harness.Failf("C02|File(segment mode)|bytes written differ from the sum of the parts' Size()", "written %d, init+sidx+segments+mfra %d", whole.Len(), total)
 	}
